@@ -36,11 +36,12 @@ RULE += ' ' + 'One deque scenario in eight works on a deque of 1001-1100 items (
 RULE += ' ' + 'One cache workload in eight starts with 300-400 KB of value files without rows (debris of earlier kills) under a 300 KB size limit.'
 RULE += ' ' + "The first-open scenario compares the shards' size limits after the kill."
 RULE += ' ' + 'One deque scenario in seven works on 4100-4500 items kept in files.'
+RULE += ' ' + 'A third of the first-open scenarios start from a directory configured earlier and opened without arguments.'
 ASSUMPTIONS = ['in-process kill: after the kill instant no task of the victim has any further effect and its descriptors are closed '
                '(what the OS does for SIGKILL); power loss is not modelled',
                'real-kill mode: single victim, kill instant derived from the seed (seam step or progress-handler tick)']
 PROBES = ('kill_mid_file_write', 'kill_torn_chunk', 'kill_in_txn', 'kill_between_commit_and_unlink', 'realkill', 'kill_inside_first_open',
-          'debris_unknown_file', 'bulk_partial', 'keynamed_refusal', 'deque_over_1000', 'debris_of_earlier_kills', 'deque_over_4096_files')
+          'debris_unknown_file', 'bulk_partial', 'keynamed_refusal', 'deque_over_1000', 'debris_of_earlier_kills', 'deque_over_4096_files', 'reopen_of_configured_directory')
 TECHNIQUE = 'deterministic simulation with crash injection: kill point enumerated over all seam events of sampled workloads; post-crash state checked by linearizability with the interrupted operation pending'
 LEVEL_TEXT = ('fault enumeration: workloads are sampled by seed, but within a workload every kill point at seam granularity is run '
               '(thorough tier), so for that workload the crash-point quantifier is decided completely at that granularity; the '
@@ -67,6 +68,7 @@ def gen_case(seed, tier):
         cfg['kind'] = rng.choice(('cache', 'cache', 'fanout', 'deque', 'index'))
         cfg['shards'] = rng.choice((1, 2, 3))
         cfg['survivor'] = rng.random() < 0.5
+        cfg['preexisting'] = rng.random() < 0.35
         cfg['settings'] = {'disk_min_file_size': mfs, 'eviction_policy': rng.choice(('least-recently-stored', 'least-recently-used',
                                                                                       'least-frequently-used', 'none')),
                            'tag_index': rng.choice((0, 1)), 'statistics': rng.choice((0, 1))}
@@ -746,7 +748,19 @@ def run_init(case):
         value = vals.dec(case['progs']['v'][1]['v'])
         marks = {}
 
+        stored_before = None
+        if cfg.get('preexisting') and kind == 'cache':
+            # not the first open: the directory exists, configured by whoever made it; the victim (and everybody after it) opens
+            # it without arguments - what was stored stays stored, however far the victim's open gets
+            first = dc.Cache(path, size_limit=2 ** 26, cull_limit=0, eviction_policy='none', statistics=1, disk_min_file_size=cfg['settings']['disk_min_file_size'])
+            first.set('configured', 1)
+            stored_before = {k: getattr(first, k) for k in ('size_limit', 'cull_limit', 'eviction_policy', 'statistics', 'disk_min_file_size')}
+            first.close()
+            probes['reopen_of_configured_directory'] = 1
+
         def make(timeout=60):
+            if kind == 'cache' and stored_before is not None:
+                return dc.Cache(path, timeout=timeout)
             if kind == 'cache':
                 return dc.Cache(path, timeout=timeout, **cfg['settings'])
             if kind == 'fanout':
@@ -806,6 +820,11 @@ def run_init(case):
                 fresh = None
             if fresh is not None:
                 shards = list(fresh._shards) if kind == 'fanout' else [fresh.cache if kind in ('deque', 'index') else fresh]
+                if stored_before is not None:
+                    now_stored = {k: getattr(fresh, k) for k in stored_before}
+                    if now_stored != stored_before:
+                        violations.append({'rule': 'C07/stored-settings-lost', 'sig': 'kill-during-reopen',
+                                           'detail': 'the directory was configured %r; after a process was killed while opening it (no arguments) the next open finds %r' % (stored_before, now_stored)})
                 if kind == 'fanout' and 'size_limit' not in cfg['settings']:
                     # however far the first open got: the total size limit (1 GiB by default) is divided among all shards
                     limits = [sh.size_limit for sh in shards]
